@@ -298,6 +298,9 @@ class Engine(object):
             return True
         if z3.is_false(t):
             return False
+        if self.deadline is not None and time.time() > self.deadline + 30:
+            self.notes.append('unit wall-clock budget exceeded inside a path')
+            raise Unsupported('wall-clock budget of unit %s exceeded inside a path' % self.unit)
         if self.pos < len(self.prefix):
             d = self.prefix[self.pos]
         else:
